@@ -22,6 +22,7 @@ DRIVER = 'drivers/c04_controls.py'
 _lock = threading.Lock()
 
 QUICK = [('Controls_q1.cfg', ('AddParam', 'Emit')),
+         ('Controls_q7.cfg', ('AddParam', 'AddVariant', 'Emit')),
          ('Controls_q6.cfg', ('AddParam', 'AddVariant', 'Emit')),
          ('Controls_q5.cfg', ('AddParam', 'Emit')),
          ('Controls_q2.cfg', ('AddParam', 'Emit')),
@@ -35,6 +36,7 @@ THOROUGH = QUICK + [('Controls_t2.cfg', ('AddParam', 'Emit')),
                     ('Controls_t4.cfg', ('AddParam', 'AddBound', 'OpenWrap', 'AddVariant', 'Emit')),
                     ('Controls_t4b.cfg', ('AddParam', 'AddVariant', 'Emit')),
                     ('Controls_t5.cfg', ('AddParam', 'Emit')),
+                    ('Controls_t7.cfg', ('AddParam', 'AddVariant', 'Emit')),
                     ('Controls_t5w.cfg', ('AddParam', 'AddBound', 'OpenWrap', 'AddVariant', 'Emit'))]
 
 
@@ -133,7 +135,7 @@ def rename(d, rnd):
             p['n'] = m[p['n']]
     for v in d['variants']:
         for a in v['set']:
-            a['n'] = m[a['n']]
+            a['n'] = m.get(a['n'], a['n'])      # a name that is no parameter stays what it is
     return d
 
 
@@ -174,6 +176,9 @@ def features(d, why=''):
                 fs.add('zero_default')
     if d['variants']:
         fs.add('variants')
+        width_of = {p['n']: width(p) for f in d['funcs'] for p in ctl_params(f)}
+        if any(a['n'] not in width_of or len(a['v']) > width_of[a['n']] for v in d['variants'] for a in v['set']):
+            fs.add('variant_refused')
         n = max(len(d['name']) + 1 + len(v['n']) for v in d['variants'])
         if n >= 30:
             fs.add('variant_name_%d' % n if n <= 33 else 'variant_name_long')
@@ -221,10 +226,17 @@ def judge(ctx, traces, l2=True):
                 'variants': 'variant block differs from defaults overlaid at the named slots',
                 'raised': 'a well-formed signature did not build',
                 'call_pairs': 'SynthDef.__call__ maps arguments to the wrong control names',
+                'again_defaults': 'a later serialisation of the same definition has a different default array',
+                'again_variants': 'a later serialisation of the same definition has different variant blocks',
+                'again_names': 'a later serialisation of the same definition has a different name table',
+                'again_slot_source': 'a later serialisation of the same definition has different control units',
+                'again_raised': 'a later serialisation of the same definition raised',
                 'call_cmd': 'SynthDef.__call__ did not produce /s_new for the definition'}.get(why, why)
-        obs = ev['o'] if ev['op'] == 'build' else {k: ev[k] for k in ('args', 'kw', 'cmd', 'pairs')}
+        obs = ev['o'] if ev['op'] in ('build', 'ser') else {k: ev[k] for k in ('args', 'kw', 'cmd', 'pairs')}
+        if ev['op'] == 'ser':
+            what += ' (history %s, serialisation %d = %s)' % (t['d']['hist'], at, ev['how'])
         ctx.violation(sig, '%s [%s] (%s; input class %s)' % (what, why, ev['op'], features(t['d'], why)),
-                      dict(kind='def', d=t['d'], calls=[dict(args=e['args'], kw=e['kw']) for e in t['ev'][1:]],
+                      dict(kind='def', d=t['d'], calls=[dict(args=e['args'], kw=e['kw']) for e in t['ev'][1:] if e['op'] == 'call'],
                            rejected_at=at, why=why, observed=obs))
     if l2:
         # implementation-shaped unit list: drift only (one unit per group, LagControl clumps of 16)
@@ -295,7 +307,7 @@ def run(ctx):
     per_slice['Controls_sim.cfg'] = len(sims)
     seen, cases = set(), []
     per_slice['hand-written (tests/test_synthdef.py, documentation)'] = len(EXTRA)
-    for d in defs + sims + EXTRA:
+    for d in defs + sims + [dict(x, hist=['as_bytes', 'store', 'write']) for x in EXTRA]:
         k = canon(d)
         if k in seen:
             continue
@@ -312,7 +324,8 @@ def run(ctx):
     judge(ctx, traces)
     ctx.cov['evaluations'] = len(cases)
     ctx.cov['requests_per_slice'] = per_slice
-    ctx.cov['calls_observed'] = sum(len(t['ev']) - 1 for t in traces)
+    ctx.cov['calls_observed'] = sum(1 for t in traces for e in t['ev'] if e['op'] == 'call')
+    ctx.cov['repeated_serialisations'] = sum(1 for t in traces for e in t['ev'] if e['op'] == 'ser')
     ctx.cov['longest_request_params'] = max(sum(len(f['params']) for f in c['d']['funcs']) for c in cases)
     for t in (traces[len(traces) // 2], traces[-1]):
         o = t['ev'][0]['o']
